@@ -100,7 +100,8 @@ SameEnt(a, b, relaxExt) ==
 Probe ==
   /\ Is("probe") /\ Adv
   /\ LET n == Ev.n
-         rotE == {x[1] : x \in {y \in nd[n].rot : y[2] = "e"}}
+         rotE == {x[1] : x \in nd[n].rot}     \* a damaged entry is damaged in both stores, but a checkpoint's Extensions
+                                              \* differ between them to begin with: do not compare Extensions there
          bad == (IF Ev.first # Ev.tfirst \/ Ev.last # Ev.tlast \/ Ev.errs THEN {"C18a_IndexDiffers"} ELSE {})
            \cup (IF Len(Ev.mw) # Len(Ev.tw) THEN {"C18a_EntryDiffers"}
                  ELSE IF \E p \in 1..Len(Ev.mw) : ~SameEnt(Ev.mw[p], Ev.tw[p], (Ev.lo + p - 1) \in rotE)
@@ -126,8 +127,10 @@ Report ==
             T == q[p]
             D == SubSeq(q, 1, p - 1)                       \* checkpoints dropped since the previous accepted one
             same == T.tok /\ T.ts = Ev.s /\ T.te = Ev.e /\ Len(T.truth) = Ev.e - Ev.s
-            held == /\ Len(Ev.read) = Ev.e - Ev.s
+            sane == Ev.e >= Ev.s                           \* (a range taken from damaged metadata may be nonsense: no claim)
+            held == /\ sane /\ Len(Ev.read) = Ev.e - Ev.s
                     /\ \A k \in 1..Len(Ev.read) : Ev.read[k][1] # -1
+            lacks == sane /\ ~held
             exempt(k) == /\ Ev.read[k][1] = 1 /\ Ev.read[k][3] = CFG           \* checksumLog's bootstrap exception
                          /\ T.truth[k][1] = 1 /\ T.truth[k][3] = CFG
             differs(k) == Core(Ev.read[k]) # Core(T.truth[k])
@@ -144,12 +147,13 @@ Report ==
                        + 4 * B(Ev.read[k][3] # T.truth[k][3]) + 8 * B(Ev.read[k][4] # T.truth[k][4])
                        + 16 * B(Ev.read[k][5] # T.truth[k][5])
             pos(k) == IF Len(Ev.read) = 1 THEN "only" ELSE IF k = 1 THEN "first" ELSE IF k = Len(Ev.read) THEN "last" ELSE "mid"
-            named(i) == \/ InRange(i, Ev.s, Ev.e)
+            named(i) == \/ i >= Ev.s                       \* inside this report's range, or beyond it (only possible when the
+                                                           \* dropped checkpoint itself was truncated away afterwards)
                         \/ (Ev.sk # <<>> /\ InRange(i, Ev.sk[1], Ev.sk[2]))
             skok == \A k \in 1..Len(D) : \A i \in D[k].s..(D[k].e - 1) : named(i)
             bad == (IF eq /\ Ev.err \in Mismatch THEN {"C16_FalseAlarm"} ELSE {})
-              \cup (IF ~held /\ Ev.err \in Mismatch /\ T.tok /\ ~wother THEN {"C16_LacksCorruption"} ELSE {})
-              \cup (IF ~held /\ Ev.err \notin (Mismatch \cup {"range"}) THEN {"C16_LacksNotRange"} ELSE {})
+              \cup (IF lacks /\ Ev.err \in Mismatch /\ T.tok /\ ~wother THEN {"C16_LacksCorruption"} ELSE {})
+              \cup (IF lacks /\ Ev.err \notin (Mismatch \cup {"range"}) THEN {"C16_LacksNotRange"} ELSE {})
               \cup (IF div /\ Ev.err \notin Mismatch THEN {"C17_Missed"} ELSE {})
               \cup (IF Ev.err = "inflight" /\ ~wother THEN {"C17_Blame"} ELSE {})
               \cup (IF ~skok THEN {"C18d_SkippedNotNamed"} ELSE {})
@@ -157,7 +161,7 @@ Report ==
            /\ cells' = IF div /\ sid # "st-doctored" THEN cells \cup {<<mask(k), pos(k), Ev.err>> : k \in {x \in 1..Len(Ev.read) : differs(x) /\ ~exempt(x)}}
                        ELSE cells
            /\ nd' = [nd EXCEPT ![n].trig = SubSeq(q, p + 1, Len(q)), ![n].ndeliv = @ + 1, ![n].dacc = @ + Len(D)]
-           /\ Bump([reports |-> 1, eq |-> B(eq), lacks |-> B(~held), div |-> B(div), inflight |-> B(Ev.err = "inflight"),
+           /\ Bump([reports |-> 1, eq |-> B(eq), lacks |-> B(lacks), div |-> B(div), inflight |-> B(Ev.err = "inflight"),
                     storage |-> B(Ev.err = "storage"), range |-> B(Ev.err = "range"), afterdrop |-> B(Len(D) > 0), drops |-> Len(D),
                     exempted |-> B(exm), skipped |-> B(Ev.sk # <<>>), spurious_skipped |-> B(Ev.sk # <<>> /\ Len(D) = 0)])
   /\ UNCHANGED sid
